@@ -52,6 +52,7 @@ var targets = []string{
 	"bmtree.PathToIndex", "bmtree.PathToIndexLoose",
 	"bitmap.FromStr32", "bmtree.PathOf",
 	"bitmap.TailBitmap.Get", "bitmap.TailBitmap.Get1", "bitword.bitWord.Get",
+	"iohelper.NewSectionWriter", "iohelper.AtToWriter",
 	"iohelper.SectionWriter.Seek", "iohelper.SectionWriter.Size",
 	// expected to be unsupported (loops): they document the bail-out
 	"bmtree.shiftMulti", "bmtree.IndexToPath", "bitmap.IndexRank64",
@@ -98,12 +99,17 @@ type recordCfg struct {
 	ctor    string
 	fields  []string          // Go field names, in constructor order
 	getter  map[string]string // Go field name -> Coq projection
+	ignore  map[string]bool   // Go fields the model does not have: a store is dropped, a load is unsupported
 }
+
+// Go types that are carried around but never looked into (the io.WriterAt a SectionWriter writes to)
+var opaqueTypes = map[string]string{"io.WriterAt": "unit"}
 
 var records = map[string]*recordCfg{
 	"iohelper.SectionWriter": {
 		coqType: "SectionWriter.sw", ctor: "SectionWriter.mkSW", fields: []string{"base", "off", "limit"},
 		getter: map[string]string{"base": "SectionWriter.base", "off": "SectionWriter.off", "limit": "SectionWriter.limit"},
+		ignore: map[string]bool{"w": true},
 	},
 	"bitmap.TailBitmap": {
 		coqType: "TailBitmap.tb", ctor: "TailBitmap.mkTB", fields: []string{"Offset", "Words", "reclaimed"},
@@ -333,6 +339,9 @@ func coqType(t types.Type) string {
 	case isErr(t):
 		return "Z"
 	}
+	if o, ok := opaqueTypes[t.String()]; ok {
+		return o
+	}
 	switch u := t.Underlying().(type) {
 	case *types.Slice:
 		if isInt(u.Elem()) {
@@ -388,6 +397,11 @@ type result struct {
 	Calls   []string `json:"calls,omitempty"`
 }
 
+type freshRec struct {
+	rec *recordCfg
+	cur string
+}
+
 type ftr struct {
 	fn      *ssa.Function
 	done    map[string]*result // callees already processed
@@ -396,6 +410,8 @@ type ftr struct {
 	ignored map[ssa.Value]bool   // closures / receivers of no-op calls
 	field   map[ssa.Value]string // FieldAddr of the state record -> Go field name
 	cell    map[*ssa.Alloc]string // local cells -> the expression currently stored
+	fresh   map[ssa.Value]*freshRec // records allocated by this (single-block) function
+	owner   map[ssa.Value]ssa.Value // FieldAddr -> the fresh allocation it points into (absent: the receiver)
 	rec     *recordCfg
 	recv    ssa.Value
 	mutates bool
@@ -404,6 +420,9 @@ type ftr struct {
 }
 
 func (t *ftr) val(v ssa.Value) string {
+	if fr, ok := t.fresh[v]; ok {
+		return fr.cur
+	}
 	if t.ignored[v] {
 		bail("the value %s (%s) is used in a way that is not translated", v.Name(), v)
 	}
@@ -502,6 +521,9 @@ func (t *ftr) instr(in ssa.Instruction, cur *string) wrapper {
 				if !ok {
 					bail("load through %s", x)
 				}
+				if fr, ok := t.fresh[t.owner[x]]; ok {
+					return let(in, fmt.Sprintf("%s %s", fr.rec.getter[f], fr.cur))
+				}
 				return let(in, fmt.Sprintf("%s %s", t.rec.getter[f], *cur))
 			case *ssa.Global:
 				g := short(x.Pkg.Pkg.Path() + "." + x.Name())
@@ -584,12 +606,16 @@ func (t *ftr) instr(in ssa.Instruction, cur *string) wrapper {
 		}
 		bail("indexing of a value of type %s", in.X.Type())
 	case *ssa.FieldAddr:
-		if t.rec == nil || in.X != t.recv {
+		rec := t.rec
+		if fr, ok := t.fresh[in.X]; ok {
+			rec = fr.rec
+			t.owner[in] = in.X
+		} else if t.rec == nil || in.X != t.recv {
 			bail("field address %s", in)
 		}
 		st := in.X.Type().Underlying().(*types.Pointer).Elem().Underlying().(*types.Struct)
 		f := st.Field(in.Field).Name()
-		if _, ok := t.rec.getter[f]; !ok {
+		if _, ok := rec.getter[f]; !ok && !rec.ignore[f] {
 			bail("field %s of the state record is not modelled", f)
 		}
 		for _, r := range *in.Referrers() {
@@ -597,6 +623,9 @@ func (t *ftr) instr(in ssa.Instruction, cur *string) wrapper {
 			case *ssa.UnOp:
 				if r.Op != token.MUL {
 					bail("use of %s", in)
+				}
+				if rec.ignore[f] {
+					bail("read of the field %s, which the model does not have", f)
 				}
 			case *ssa.Store:
 				if r.Addr != ssa.Value(in) {
@@ -610,6 +639,45 @@ func (t *ftr) instr(in ssa.Instruction, cur *string) wrapper {
 		t.ignored[in] = true
 		return id
 	case *ssa.Alloc:
+		if rec := recordOf(in.Type()); rec != nil {
+			// a fresh state record (&SectionWriter{...}): only in a function without control flow; the address is used
+			// for field stores / loads and as a result, nothing else
+			if len(t.fn.Blocks) != 1 {
+				bail("allocation of a record in a function with control flow")
+			}
+			for _, r := range *in.Referrers() {
+				switch r.(type) {
+				case *ssa.FieldAddr, *ssa.Return, *ssa.MakeInterface, *ssa.DebugRef:
+				default:
+					bail("the fresh record %s escapes (%s)", in.Name(), r)
+				}
+			}
+			t.nstate++
+			nm := fmt.Sprintf("r_%d", t.nstate)
+			var zs []string
+			st := in.Type().Underlying().(*types.Pointer).Elem().Underlying().(*types.Struct)
+			for _, f := range rec.fields {
+				z := ""
+				for k := 0; k < st.NumFields(); k++ {
+					if st.Field(k).Name() == f {
+						switch {
+						case isInt(st.Field(k).Type()):
+							z = "0"
+						case coqType(st.Field(k).Type()) == "list Z":
+							z = "[]"
+						}
+					}
+				}
+				if z == "" {
+					bail("zero value of field %s", f)
+				}
+				zs = append(zs, z)
+			}
+			t.fresh[in] = &freshRec{rec, nm}
+			expr := rec.ctor + " " + strings.Join(zs, " ")
+			c := fmt.Sprint(in)
+			return func(n node) node { return &nLet{nm, expr, c, n} }
+		}
 		// a local cell (a parameter or variable captured by a closure that is handed to a no-op callee only):
 		// written only in the block that allocates it, before anything can branch, read anywhere below
 		if !isInt(in.Type().Underlying().(*types.Pointer).Elem()) && !isBool(in.Type().Underlying().(*types.Pointer).Elem()) {
@@ -653,6 +721,28 @@ func (t *ftr) instr(in ssa.Instruction, cur *string) wrapper {
 		if !ok {
 			bail("store %s", in)
 		}
+		if fr, ok := t.fresh[t.owner[fa]]; ok {
+			if fr.rec.ignore[f] {
+				return id // the model has no such field
+			}
+			var args []string
+			for _, g := range fr.rec.fields {
+				if g == f {
+					args = append(args, paren(t.val(in.Val)))
+				} else {
+					args = append(args, fmt.Sprintf("(%s %s)", fr.rec.getter[g], fr.cur))
+				}
+			}
+			t.nstate++
+			nm := fmt.Sprintf("r_%d", t.nstate)
+			expr := fr.rec.ctor + " " + strings.Join(args, " ")
+			fr.cur = nm
+			c := fmt.Sprint(in)
+			return func(n node) node { return &nLet{nm, expr, c, n} }
+		}
+		if t.rec.ignore[f] {
+			bail("store to the field %s of the receiver, which the model does not have", f)
+		}
 		t.mutates = true
 		var args []string
 		for _, g := range t.rec.fields {
@@ -677,6 +767,13 @@ func (t *ftr) instr(in ssa.Instruction, cur *string) wrapper {
 		}
 		t.ignored[in] = true
 		return id
+	case *ssa.MakeInterface:
+		// an interface value made from a state record is modelled by the record (io.Writer <- *SectionWriter)
+		if recordOf(in.X.Type()) != nil {
+			t.name[in] = t.val(in.X)
+			return id
+		}
+		bail("interface value %s", in)
 	case *ssa.Extract:
 		tup := in.Tuple.Type().(*types.Tuple)
 		e := t.val(in.Tuple)
@@ -1019,6 +1116,40 @@ func (t *ftr) topo() map[*ssa.BasicBlock]int {
 	return o
 }
 
+// the Coq type of the results; an interface result is the state record it is made from at every return
+func resultType(fn *ssa.Function) string {
+	res := fn.Signature.Results()
+	var ts []string
+	for k := 0; k < res.Len(); k++ {
+		ty := res.At(k).Type()
+		if _, isIface := ty.Underlying().(*types.Interface); isIface && !isErr(ty) {
+			var rec *recordCfg
+			for _, b := range fn.Blocks {
+				if r, ok := b.Instrs[len(b.Instrs)-1].(*ssa.Return); ok {
+					mi, ok := r.Results[k].(*ssa.MakeInterface)
+					if !ok || recordOf(mi.X.Type()) == nil || (rec != nil && rec != recordOf(mi.X.Type())) {
+						bail("result of interface type %s", ty)
+					}
+					rec = recordOf(mi.X.Type())
+				}
+			}
+			if rec == nil {
+				bail("result of interface type %s", ty)
+			}
+			ts = append(ts, rec.coqType)
+			continue
+		}
+		ts = append(ts, coqType(ty))
+	}
+	switch len(ts) {
+	case 0:
+		return "unit"
+	case 1:
+		return ts[0]
+	}
+	return "(" + strings.Join(ts, " * ") + ")"
+}
+
 // rewrite the state-carrying returns once it is known whether the function mutates its receiver
 func fixRets(n node, mutates bool) {
 	switch n := n.(type) {
@@ -1076,7 +1207,8 @@ func translate(fn *ssa.Function, name string, done map[string]*result, byName ma
 		bail("closure")
 	}
 	t := &ftr{fn: fn, done: done, byName: byName, name: map[ssa.Value]string{}, ignored: map[ssa.Value]bool{},
-		field: map[ssa.Value]string{}, calls: map[string]bool{}, cell: map[*ssa.Alloc]string{}}
+		field: map[ssa.Value]string{}, calls: map[string]bool{}, cell: map[*ssa.Alloc]string{},
+		fresh: map[ssa.Value]*freshRec{}, owner: map[ssa.Value]ssa.Value{}}
 	t.checkAcyclic()
 	if fn.Signature.Variadic() {
 		bail("variadic function")
@@ -1116,10 +1248,7 @@ func translate(fn *ssa.Function, name string, done map[string]*result, byName ma
 	body := t.block(fn.Blocks[0], cur)
 	fixRets(body, t.mutates)
 	partial := isPartial(body)
-	rt := coqType(fn.Signature.Results())
-	if fn.Signature.Results().Len() == 1 {
-		rt = coqType(fn.Signature.Results().At(0).Type())
-	}
+	rt := resultType(fn)
 	if t.mutates {
 		rt = "(" + t.rec.coqType + " * " + rt + ")"
 	}
